@@ -304,6 +304,15 @@ func (rw *rewriter) run() {
 			} else if rw.name == "block_io.go" && isPkgSel(n.Fun, "syscall", "Recvmsg") {
 				n.Fun = sel("vrt", "SysRecvmsg")
 				rw.needVrt = true
+			} else if id, ok := n.Fun.(*ast.Ident); ok && id.Name == "MemfdCreate" && rw.name != "sys_memfd_create_linux.go" {
+				// descriptors the code under test creates are attributed to the "process" (thread tag) that created them
+				if _, wrapped := c.Parent().(*ast.CallExpr); !wrapped {
+					c.Replace(rw.vrt("TrackFd", n))
+				}
+			} else if isPkgSel(n.Fun, "syscall", "ParseUnixRights") {
+				if pc, wrapped := c.Parent().(*ast.CallExpr); !wrapped || !isPkgSel(pc.Fun, "vrt", "TrackFds") {
+					c.Replace(rw.vrt("TrackFds", n))
+				}
 			} else if rw.name == "event_dispatcher.go" && len(n.Args) == 0 {
 				// getConnDupFd: `return f.File()` -> the duplicated descriptor's *os.File is tracked so that an aborted
 				// execution can close it explicitly (no finalizer closing a reused descriptor number later)
